@@ -259,7 +259,10 @@ class StmtMixin:
             self.rangefor(s, cx, out, ind)
             return
         # expression statement
-        v = self.rv(s, cx)
+        if s.get('kind') in ('CallExpr', 'CXXMemberCallExpr', 'CXXOperatorCallExpr') and self.is_glvalue(s):
+            v = self.call(s, cx)      # discarded reference result: do not dereference it
+        else:
+            v = self.rv(s, cx)
         self.flush(cx, out, ind)
         if v not in ('((void)0)', '((void)((void)0))'):
             out.append(ind + '(void)(%s);' % v if not v.startswith('((void)') else ind + v + ';')
